@@ -121,13 +121,13 @@ func prebuiltOp19(how, fin string, seed uint64) op19 {
 			var cnt int64
 			res, d = tx.Model(&Tag{}).Count(&cnt), d+".Model(&Tag{}).Count(&n)"
 		case "Update":
-			res, d = tx.Model(&Tag{ID: 3}).Update("c1", "u"), d+".Model(&Tag{ID: 3}).Update(c1, u)"
+			res, d = tx.Model(&Tag{ID: 3}).Where("c2 > ?", 0).Update("c1", "u"), d+".Model(&Tag{ID: 3}).Where(c2 > 0).Update(c1, u)"
 		case "Updates":
-			res, d = tx.Model(&Tag{ID: 3}).Updates(Tag{C1: "u", C2: 2}), d+".Model(&Tag{ID: 3}).Updates(Tag{C1, C2})"
+			res, d = tx.Model(&Tag{}).Where(Tag{C2: 1}).Updates(Tag{C1: "u", C2: 2}), d+".Model(&Tag{}).Where(Tag{C2: 1}).Updates(Tag{C1, C2})"
 		case "UpdateColumn":
 			res, d = tx.Model(&Tag{}).Where("id = ?", 3).UpdateColumn("c1", "u"), d+".Model(&Tag{}).Where(id = 3).UpdateColumn(c1, u)"
 		case "Delete":
-			res, d = tx.Delete(&Tag{ID: 3}), d+".Delete(&Tag{ID: 3})"
+			res, d = tx.Where("c2 = ?", 1).Delete(&Tag{ID: 3}), d+".Where(c2 = 1).Delete(&Tag{ID: 3})"
 		case "DeleteInline":
 			res, d = tx.Delete(&Tag{}, "c2 = ?", 1), d+".Delete(&Tag{}, c2 = 1)"
 		case "Row":
